@@ -106,13 +106,6 @@ theorem lvl_flat {ty tyP : TypeId} {K L : List Node} {b nd : Nat} {ctx : List No
 
 /-! ### the replace inside one level -/
 
-theorem fsize_zero_of_fnormKids : ∀ (c : List Node), fnormKids c = true → fsize c = 0 → c = []
-  | [], _, _ => rfl
-  | n :: ns, hn, hz => by
-    simp only [fnormKids_cons, Bool.and_eq_true] at hn
-    have := Node.size_pos_of_norm n hn.1
-    simp at hz; omega
-
 /-- **a flat closed replace inside one child list is a validity check of one well-defined list**:
     the normal-form list `Y` with tokens `before ++ content ++ after` -/
 theorem atLevel_flat_spec (S : Schema) (c : List Node) (hcn : fnorm c = true) (ty : TypeId)
